@@ -118,6 +118,7 @@ Theorem sensing_result_spec cfg cloud i g :
   r_obj r = i /\
   r_inside r = box_crop_idx (g_box g) (scale_of cfg g) true cloud /\
   r_num r = length (r_inside r) /\
+  r_num r = inside_num (g_box g) (scale_of cfg g) cloud /\
   (r_detected r = true <-> (c_min_points cfg <= Z.of_nat (r_num r))%Z) /\
   (r_occluded r = true <-> g_vis g = Some V_NONE).
 Proof.
